@@ -11,6 +11,8 @@ Ops (one per line, space separated; every structured argument is one space-free 
 * `schema <Name> <schema>`                — register the schema regenerated from the protobuf descriptors of /repo;
                                             pinned names are compared with the schemas the theorems are stated for
 * `enc <Name> <msg>`                      — `x<bytes of encode> <normal form>`; also checks `decode (encode m) = norm m`
+* `certc parent round step voted votes`   — `FullBlockCert.Compress` + `BlockCert.ToBytes` of votes `off:upgrade:x<sig>;…`:
+                                            bytes of the compressed certificate (and `expand (compress votes) = votes`)
 * `canon <Name> x<bytes>`                 — canonical re-encoding of a NON-canonical input (explicit defaults, over-long
                                             varints): `x<encode (decode bytes)>`
 * `sigeq <Name> <msg> <msg>`              — `same` / `diff`: do the two signed messages have the same encoding
@@ -268,6 +270,25 @@ def step (st : St) (line : String) : St × String :=
     match st.schemas.lookup name, parseSpec specTok, parseGoVals valsTok with
     | some s, some spec, some vals => (st, recAnswer s spec vals)
     | _, _, _ => (st, "bad-op")
+  | ["certc", parent, r, stp, vh, votesTok] =>
+    -- votes over one (round, step, parent, voted hash): `off:upgrade:x<sig>` joined by `;` (`-` = no vote)
+    match parseHex parent, parseNatTok r, parseNatTok stp, parseHex vh with
+    | some parent, some r, some stp, some vh =>
+      let items := if votesTok = "-" then [] else votesTok.splitOn ";"
+      let votes := items.foldr (fun item acc =>
+        match acc, item.splitOn ":" with
+        | some l, [o, u, sg] =>
+          match parseNatTok o, parseNatTok u, parseHex sg with
+          | some o, some u, some sg => some ((⟨⟨r, stp, parent, vh, o != 0, u⟩, sg⟩ : VoteM) :: l)
+          | _, _, _ => none
+        | _, _ => none) (some [])
+      match votes with
+      | none => (st, "bad-op")
+      | some votes =>
+        let c := compress votes
+        let ok := votes.isEmpty || decide (expand parent c = votes)
+        (st, "x" ++ hexOf (encode certSchema (certMsg c)) ++ (if ok then "" else " EXPAND-FAIL"))
+    | _, _, _, _ => (st, "bad-op")
   | ["canon", name, hexTok] =>
     match st.schemas.lookup name, parseHex hexTok with
     | some s, some bs =>
